@@ -190,18 +190,20 @@ var plans = map[string]Plan{
 	},
 	"C11": {
 		Level: "exploration",
-		Rule: "cases are documents: (roundtrip, walk) AST models drawn from the full grammar (every header, definition, type, constant and annotation form, docstrings) printed by an independent printer with randomised layout (blanks incl. CR and newlines after any token, #, //, /* */ comments, optional separators, both quote styles with every escape, hex / signed ints, doubles with exponents) that records the true (line, column) of each node's first token; (totality) random bytes, ASCII / token soup and token-level mutations of printed documents; plus a fixed grid of minimal reproductions. " +
+		Rule: "cases are documents: (roundtrip, walk) AST models drawn from the full grammar (every header, definition, type, constant and annotation form, docstrings: single-line, starred and bare blocks, and docstrings without any body - /***/, /** */, /**\\n*/, blank lines, gutter-only and whitespace-only lines, CRLF - on definitions, enum items, fields, parameters and functions, 0 / 1 / >=2 newlines above the node, orphaned ones in front of a node's own docstring, between any two tokens >=2 newlines above what follows, and at the end of the document) printed by an independent printer with randomised layout (blanks incl. CR and newlines after any token, #, //, /* */ comments, optional separators, both quote styles with every escape, hex / signed ints, doubles with exponents) that records the true (line, column) of each node's first token; (totality) random bytes, ASCII / token soup and token-level mutations of printed documents; plus a fixed grid of minimal reproductions and a complete grid (docgrid) of 23 degenerate docstrings x 12 documentable node kinds x 4 placements. " +
 			"Oracle: parsed tree == model in structure, names, literal values, docstrings and positions (ast.Pos, Info.Pos, Line/Column); ast.Walk == own traversal (each node once, true parents); Parse returns exactly one of program / non-empty error list with positions inside the document, never panics. " +
 			"Non-trivial: >=3 definitions and >=1 of {escape in a literal, comment between tokens, keyword followed by newline, docstring}; totality: non-empty input. Distinct: SHA-256 of the document text.",
 		Assumptions: []string{
 			"the generator emits only syntax that thrift.y / lex.rl accept (read from those files); 'true position' = first token of the node's production",
 			"input classes of open known findings are excluded by construction in the random units (C11_AVOID) and counted; the fixed grid re-observes them on every run",
+			"the content of a docstring without body (only markers, blanks, newlines and lines holding the gutter ' *') is the empty string (ParseDocstring's documented rule: the text between the markers without gutters and indentation); all gutter lines of one docstring are indented alike (the documented form); the four-byte text /**/ is a comment, never generated as a docstring (N1)",
 		},
 		Units: []Unit{
 			{Name: "roundtrip", Pkg: "./checks/c11", Run: "^TestRoundTrip$", Rapid: true, Shards: [2]int{6, 16}, Checks: [2]int{20000, 100000}, Env: []string{"C11_AVOID=K2,N1"}},
 			{Name: "walk", Pkg: "./checks/c11", Run: "^TestWalk$", Rapid: true, Shards: [2]int{4, 8}, Checks: [2]int{16000, 100000}, Env: []string{"C11_AVOID=K2,N1"}},
 			{Name: "totality", Pkg: "./checks/c11", Run: "^TestTotality$", Rapid: true, Shards: [2]int{6, 16}, Checks: [2]int{25000, 150000}, Env: []string{"C11_AVOID=K2,N1"}},
 			{Name: "repros", Pkg: "./checks/c11", Run: "^TestRepros$", Shards: [2]int{1, 1}},
+			{Name: "docgrid", Pkg: "./checks/c11", Run: "^TestDocGrid$", Shards: [2]int{1, 1}},
 			{Name: "fuzz", Pkg: "./checks/c11", Fuzz: "FuzzParse", Shards: [2]int{0, 1}, FuzzTime: [2]time.Duration{0, 120 * time.Second}, Weight: 16, Env: []string{"C11_AVOID=K2,N1"}},
 		},
 	},
